@@ -625,6 +625,39 @@ pub fn run(opts: &Opts, out: &mut Emitter, prop: &str) {
             }
         }
     }
+    // text where an address, a credential, a datum or a metadata value is expected: a long text with one character
+    // of 2 or 4 bytes at every position in turn, and runs of 2-byte characters of every length up to 80 bytes - an
+    // error message that echoes part of the text must cut it at a character boundary
+    if prop == "C14" {
+        const TEXT: &str = "addr1qx0rs5qrvx9qkndwu0w88t0xghgy3f53ha76kpx8uf496m9rn2ursdm3r0fgf5pmm4lpufshl8lquk5yykg4pd00hp6quf2hh2";
+        let mut texts: Vec<String> = vec![];
+        for wide in ['é', '😀'] {
+            for at in 0..TEXT.len() {
+                let mut t: Vec<char> = TEXT.chars().collect();
+                t[at] = wide;
+                texts.push(t.into_iter().collect());
+            }
+        }
+        for n in 1..=40 {
+            texts.push("é".repeat(n));
+            texts.push(format!("a{}", "é".repeat(n)));
+        }
+        for text in texts.iter() {
+            for slot in 0..4 {
+                let mut t = empty_tx();
+                t.fees = ada(1);
+                let mut o = tir::Output { address: E::Address(ADDR_A.to_vec()), datum: E::None, amount: ada(2_000_000), optional: false };
+                match slot {
+                    0 => o.address = E::String(text.clone()),
+                    1 => o.datum = E::String(text.clone()),
+                    2 => t.adhoc.push(adhoc("withdrawal", vec![("credential", E::String(text.clone())), ("amount", E::Number(0)), ("redeemer", E::None)])),
+                    _ => t.metadata.push(tir::Metadata { key: E::Number(1), value: E::String(text.clone()) }),
+                }
+                t.outputs.push(o);
+                out.case("wide-text-sweep", || case(&t, false, true));
+            }
+        }
+    }
     for k in 0..opts.n {
         g.boundary = match prop {
             "C02" | "C14" => k % 2 == 0,
